@@ -37,6 +37,8 @@ GROUPS = {
    [('copy_slice_is_model', 'copy_slice_eq'), ('copy_sample_is_model', 'copy_sample_eq'),
     ('get_subset_slice_axis_is_model', 'get_subset_key_slice_eq'), ('get_subset_spatial_axis_copies', 'get_subset_key_spatial_eq'),
     ('get_subset_sample_axis_is_model', 'get_subset_key_sample_eq')]),
+ 'filter': ('dcmstack.py: make_key_regex_filter and its inner function',
+   [('key_regex_filter_is_model', 'key_regex_filter_eq')]),
  'orient': ('dcmstack.py: the voxel_order checks of reorder_voxels',
    [('check_voxel_order_is_model', 'check_voxel_order_eq')]),
  'phoenix': ('extract.py: _parse_phoenix_line',
@@ -49,7 +51,7 @@ GROUPS = {
    [('file_idx_is_model', 'file_idx_eq'), ('file_idx_volume_is_model', 'file_idx_volume_eq'),
     ('get_data_trim_is_model', 'get_data_trim_eq')]),
 }
-EXTRA = {'subset': 'variable [DecidableEq α]\n'}
+EXTRA = {'subset': 'variable [DecidableEq α]\n', 'filter': 'variable {ρ : Type}\n'}
 OPENS = {'orient': 'Src Orient', 'phoenix': 'Src Phx', 'header': 'Src Stk', 'stackadd': 'Src Stk', 'stack': 'Src Stk', 'data': 'Src Stk Wrap', 'wrapsplit': 'Src Wrap', 'wrapmerge': 'Src Wrap'}
 for grp, (srcfile, pairs) in GROUPS.items():
     mod = 'Code_' + grp
